@@ -2,6 +2,7 @@ package props
 
 import (
 	"fmt"
+	"strconv"
 	"strings"
 
 	"golang.org/x/tools/go/ssa"
@@ -74,7 +75,13 @@ func isBlockTime(e *ir.Expr) bool {
 
 // isCounterOf: e is counter(<order>.Decisions[i].Decision == status) for the order with key `key`.
 func isCounterOf(c *Ctx, e *ir.Expr, status string, key string) bool {
-	e = stripConvE(e)
+	// the count may be taken by a helper returning it (possibly as one of several results)
+	e = stripConvE(c.W.Expand(stripConvE(e), 3))
+	if e != nil && e.Op == "res" && len(e.Args) == 1 && e.Args[0].Op == "tuple" {
+		if i, err := strconv.Atoi(e.Name); err == nil && i < len(e.Args[0].Args) {
+			e = stripConvE(e.Args[0].Args[i])
+		}
+	}
 	if e == nil || e.Op != "counter" || e.Name != "true" || len(e.Args) != 1 {
 		return false
 	}
@@ -355,72 +362,88 @@ func decideOnce(c *Ctx, h *ssa.Function, site ssa.Instruction, k string) {
 	w, r := c.W, c.R
 	ok := false
 	detail := "no rejecting loop over the order's decisions comparing the signer"
-	for _, b := range h.Blocks {
-		iff, isIf := b.Instrs[len(b.Instrs)-1].(*ssa.If)
-		if !isIf {
-			continue
+	// the loop may stand in the handler or in any helper expanded on the way (flat view)
+	root := w.FlatRoot(h)
+	var ctxs []*ir.FCtx
+	seenCtx := map[*ir.FCtx]bool{}
+	w.FlatWalk(root, nil, nil, func(p ir.FPos) bool {
+		if !seenCtx[p.Ctx] {
+			seenCtx[p.Ctx] = true
+			ctxs = append(ctxs, p.Ctx)
 		}
-		e := w.ExprOf(iff.Cond)
-		match := false
-		var rejectSucc int
-		for si, pol := range []bool{true, false} {
-			p := ir.Pred{E: e, Pol: pol}
-			if cmpIs(p, "==", func(x *ir.Expr) bool { return isMsgField(x, "Signer") }, func(y *ir.Expr) bool {
-				if y.Op != "field" || y.Name != "Signer" || len(y.Args) != 1 || y.Args[0].Op != "elem" {
-					return false
-				}
-				key, okk := allStateField(c, y.Args[0].Args[0], secPO, "Decisions")
-				return okk && len(keyArgs(key)) == 1 && isMsgField(keyArgs(key)[0], "PurchaseOrderId")
-			}) {
-				match = true
-				rejectSucc = si
-			}
-		}
-		if !match {
-			continue
-		}
-		if !onlyErrorsFrom(c, h, b.Succs[rejectSucc]) {
-			detail = "the signer-already-decided branch does not lead to an error"
-			continue
-		}
-		hdr := ir.EnclosingLoopHeader(h, iff)
-		if hdr == nil {
-			detail = "the signer comparison is not inside a loop over the decisions"
-			continue
-		}
-		// every iteration passes the comparison: from the loop body no back edge is reachable around it
-		skip := false
-		for _, be := range ir.BackEdges(h) {
-			if be[1] != hdr {
+		return true
+	})
+	for _, ctx := range ctxs {
+		g := ctx.Fn
+		for _, b := range g.Blocks {
+			iff, isIf := b.Instrs[len(b.Instrs)-1].(*ssa.If)
+			if !isIf {
 				continue
 			}
-			term := be[0].Instrs[len(be[0].Instrs)-1]
-			for si, s := range hdr.Succs {
-				_ = si
-				if s.Dominates(b) || s == b {
-					if ir.ReachesFrom(h, s, 0, term, ir.Cut{Barrier: func(in ssa.Instruction) bool { return in == ssa.Instruction(iff) }}) && term != ssa.Instruction(iff) {
-						skip = true
+			e := ctx.Apply(w.ExprOf(iff.Cond))
+			match := false
+			var rejectSucc int
+			for si, pol := range []bool{true, false} {
+				p := ir.Pred{E: e, Pol: pol}
+				if cmpIs(p, "==", func(x *ir.Expr) bool { return isMsgField(x, "Signer") }, func(y *ir.Expr) bool {
+					if y.Op != "field" || y.Name != "Signer" || len(y.Args) != 1 || y.Args[0].Op != "elem" {
+						return false
+					}
+					key, okk := allStateField(c, y.Args[0].Args[0], secPO, "Decisions")
+					return okk && len(keyArgs(key)) == 1 && isMsgField(keyArgs(key)[0], "PurchaseOrderId")
+				}) {
+					match = true
+					rejectSucc = si
+				}
+			}
+			if !match {
+				continue
+			}
+			if !onlyErrorsFrom(c, g, b.Succs[rejectSucc]) {
+				detail = "the signer-already-decided branch does not lead to an error"
+				continue
+			}
+			hdr := ir.EnclosingLoopHeader(g, iff)
+			if hdr == nil {
+				detail = "the signer comparison is not inside a loop over the decisions"
+				continue
+			}
+			// every iteration passes the comparison: from the loop body no back edge is reachable around it
+			skip := false
+			for _, be := range ir.BackEdges(g) {
+				if be[1] != hdr {
+					continue
+				}
+				term := be[0].Instrs[len(be[0].Instrs)-1]
+				for si, s := range hdr.Succs {
+					_ = si
+					if s.Dominates(b) || s == b {
+						if ir.ReachesFrom(g, s, 0, term, ir.Cut{Barrier: func(in ssa.Instruction) bool { return in == ssa.Instruction(iff) }}) && term != ssa.Instruction(iff) {
+							skip = true
+						}
 					}
 				}
 			}
+			if skip {
+				detail = "an iteration can bypass the signer comparison"
+				continue
+			}
+			// the site is reachable only through the loop header
+			cx := ctx
+			if w.FlatReaches(root, nil, &ir.FlatCut{Barrier: func(fc *ir.FCtx, in ssa.Instruction) bool { return fc == cx && in == hdr.Instrs[0] }}, func(p ir.FPos) bool { return p.Ctx == root && p.In == site }) != nil {
+				detail = "the decision can be recorded without running the loop"
+				continue
+			}
+			ok = true
 		}
-		if skip {
-			detail = "an iteration can bypass the signer comparison"
-			continue
-		}
-		// the site is reachable only through the loop header
-		if ir.Reaches(h, site, ir.Cut{Barrier: func(in ssa.Instruction) bool { return in == hdr.Instrs[0] }}) {
-			detail = "the decision can be recorded without running the loop"
-			continue
-		}
-		ok = true
 	}
 	r.Require(ok, "A2.decide-once-loop", k, pos(c, site), "each signer decides at most once per order: a loop over the order's decisions rejects a repeated signer before the decision is recorded", detail)
 }
 
 type poWriter struct {
 	Top    *ssa.Function
-	First  ssa.Instruction // instruction in Top leading to the write
+	Chain  []ssa.Instruction // call sites from Top down to the writing function
+	First  ssa.Instruction   // instruction in Top leading to the write
 	Struct *ir.Expr
 	Eff    ir.Effect
 }
@@ -443,7 +466,7 @@ func poWriters(c *Ctx) []poWriter {
 			if len(up.Chain) > 0 {
 				first = up.Chain[0]
 			}
-			out = append(out, poWriter{Top: up.Top, First: first, Struct: up.E, Eff: e})
+			out = append(out, poWriter{Top: up.Top, Chain: up.Chain, First: first, Struct: up.E, Eff: e})
 		}
 	}
 	return out
@@ -485,7 +508,7 @@ func statusTypestate(c *Ctx) {
 			}
 		}
 		guardStatus := func(want string) bool {
-			return w.Guarded(pw.Top, pw.First, func(p ir.Pred) bool {
+			return chainGuarded(c, pw.Top, pw.Chain, pw.Eff.Site, func(p ir.Pred) bool {
 				return cmpIs(p, "==", func(x *ir.Expr) bool {
 					k, ok := allStateField(c, x, secPO, "Status")
 					return ok && k.String() == baseKey
@@ -537,8 +560,8 @@ func statusTypestate(c *Ctx) {
 }
 
 func thresholds(c *Ctx, pw poWriter, status, baseKey, key string) {
-	w, r := c.W, c.R
-	g := func(m ir.Matcher) bool { return w.Guarded(pw.Top, pw.First, m, 2) }
+	r := c.R
+	g := func(m ir.Matcher) bool { return chainGuarded(c, pw.Top, pw.Chain, pw.Eff.Site, m, 2) }
 	minAcc := func(e *ir.Expr) bool { return isEntParam(c, stripConvE(e), "MinAccepts") }
 	accepts := func(e *ir.Expr) bool { return isCounterOf(c, e, stAccepted, baseKey) }
 	rejects := func(e *ir.Expr) bool { return isCounterOf(c, e, stRejected, baseKey) }
@@ -632,8 +655,8 @@ func blockerOrdering(c *Ctx) {
 			continue
 		}
 		id := keyArgs(baseKey)[0].String()
-		reqCall := func(pred func(ir.Effect) bool, keySec string) func(ssa.Instruction) bool {
-			return func(in ssa.Instruction) bool {
+		reqCall := func(pred func(ir.Effect) bool, keySec string) func(*ir.FCtx, ssa.Instruction) bool {
+			return func(ctx *ir.FCtx, in ssa.Instruction) bool {
 				call, ok := in.(ssa.CallInstruction)
 				if !ok {
 					return false
@@ -642,9 +665,13 @@ func blockerOrdering(c *Ctx) {
 					if !reachesEffect(c, t, pred) {
 						continue
 					}
-					// the id argument of the call is the same order id
+					// the id argument of the call is the same order id (in the terms of the top function)
 					for _, a := range call.Common().Args {
-						if w.ExprOf(a).String() == id {
+						e := w.ExprOf(a)
+						if ctx != nil {
+							e = ctx.Apply(e)
+						}
+						if e.String() == id {
 							return true
 						}
 					}
@@ -655,10 +682,10 @@ func blockerOrdering(c *Ctx) {
 				return false
 			}
 		}
-		need := map[string]func(ssa.Instruction) bool{}
+		need := map[string]func(*ir.FCtx, ssa.Instruction) bool{}
 		switch status.Name {
 		case stCompleted:
-			need["mint the order amount"] = func(in ssa.Instruction) bool {
+			need["mint the order amount"] = func(_ *ir.FCtx, in ssa.Instruction) bool {
 				call, ok := in.(ssa.CallInstruction)
 				if !ok {
 					return false
@@ -683,13 +710,18 @@ func blockerOrdering(c *Ctx) {
 		if status.Name == stCompleted {
 			rule = "A3.completion-pairing"
 		}
-		if ir.EnclosingLoopHeader(f, pw.First) == nil {
-			r.Bad(rule, fn(f)+"|"+status.Name+"|loop", pos(c, pw.First), "queue processing happens in a loop over the queue", "the status write is not inside a loop")
-			continue
-		}
 		for _, what := range sortedKeys(need) {
-			bad := ir.AfterReachesBackEdgeWithout(f, pw.First, need[what])
-			r.Require(len(bad) == 0, rule, fn(f)+"|"+status.Name+"|"+what, pos(c, pw.First), "after storing Status="+status.Name+" every non-aborting path of the iteration must "+what, "the next iteration is reachable without it")
+			req := need[what]
+			ok, found := afterMust(c, f, pw.Chain, pw.Eff.Site, req)
+			if !found {
+				// the write cannot be located in the call-expanded view: judge inside the top function
+				if ir.EnclosingLoopHeader(f, pw.First) == nil {
+					r.Bad(rule, fn(f)+"|"+status.Name+"|loop", pos(c, pw.First), "queue processing happens in a loop over the queue", "the status write is not inside a loop")
+					continue
+				}
+				ok = len(ir.AfterReachesBackEdgeWithout(f, pw.First, func(in ssa.Instruction) bool { return req(nil, in) })) == 0
+			}
+			r.Require(ok, rule, fn(f)+"|"+status.Name+"|"+what, pos(c, pw.First), "after storing Status="+status.Name+" every non-aborting path of the iteration must "+what, "the next iteration (or the end of the step) is reachable without it")
 		}
 	}
 }
